@@ -92,3 +92,38 @@ func RunSweep(repo, verifDir, pkg, pattern string) int {
 	}
 	return 0
 }
+
+
+// RunLockScan is a development aid: the structural releaseslock check applied to every
+// function of the repository (no contracts needed). It prints the returns that can be
+// reached with a plain-Lock()ed mutex still held.
+func RunLockScan(repo string) int {
+	prog, err := Load(repo, []string{"./..."})
+	if err != nil {
+		fmt.Println(err)
+		return 2
+	}
+	var keys []string
+	for k := range prog.Funcs {
+		if strings.HasPrefix(k, ModPath) {
+			keys = append(keys, k)
+		}
+	}
+	sort.Strings(keys)
+	n := 0
+	for _, k := range keys {
+		fn := prog.Funcs[k]
+		if fn.Blocks == nil {
+			continue
+		}
+		g := NewGen(prog, fn, nil)
+		for _, o := range releasesLockObligations(g, fn, k) {
+			if o.Goal == False {
+				fmt.Printf("LOCKSCAN %s at %s\n", ShortKey(k), o.Pos)
+				n++
+			}
+		}
+	}
+	fmt.Printf("lockscan: %d returns with a mutex possibly held\n", n)
+	return 0
+}
